@@ -681,6 +681,14 @@ func (fc *FuncCtx) envFor(st *State, extra map[string]TV) *Env {
 	return &Env{fc: fc, vars: vars, st: st, old: fc.s0}
 }
 
+// conjuncts splits an expression at its top-level &&.
+func conjuncts(e Expr) []Expr {
+	if b, ok := e.(EBin); ok && b.Op == "&&" {
+		return append(conjuncts(b.L), conjuncts(b.R)...)
+	}
+	return []Expr{e}
+}
+
 func catchTr(where string, f func()) (err error) {
 	defer func() {
 		if r := recover(); r != nil {
@@ -1489,7 +1497,53 @@ func (fc *FuncCtx) finish() {
 		o := fc.oblige("closure-inv", clauseLabel(c, i), exit, t, "invariant of the function literal is re-established: "+c.Src, c.Tags)
 		o.Pos = fc.posOfFn()
 	}
+	// a postcondition that is the left-hand side of an `unfold-post L == R` (a folded definition
+	// established for a fresh object) is proved through its definition: every conjunct of R separately
+	foldDefs := map[string]Expr{}
+	for _, c := range con.UnfoldPost {
+		if b, ok := c.E.(EBin); ok && b.Op == "==" {
+			foldDefs[b.L.String()] = b.R
+		}
+	}
 	for i, c := range con.Ensures {
+		if def, ok := foldDefs[c.E.String()]; ok {
+			body := def
+			if call, isCall := def.(ECall); isCall {
+				if d, isDef := fc.eng.cs.Spec.Defs[call.Fn]; isDef && len(d.Params) == len(call.Args) {
+					// expand the macro so that its top-level conjuncts can be split
+					ne := *env
+					ne.bound = map[string]TV{}
+					for k, v := range env.bound {
+						ne.bound[k] = v
+					}
+					for k, p := range d.Params {
+						ne.bound[p.Name] = env.tr(call.Args[k])
+					}
+					for k, cj := range conjuncts(d.Body) {
+						var t string
+						if err := catchTr(fmt.Sprintf("%s ensures %d (definition, conjunct %d)", con.Key, i, k), func() { t = ne.trBool(cj) }); err != nil {
+							panic(trErr(err.Error()))
+						}
+						fc.curEnv = env
+						o := fc.oblige("post", fmt.Sprintf("%s#%d", clauseLabel(c, i), k), exit, t, "postcondition (by definition, conjunct "+fmt.Sprint(k)+"): "+c.Src, c.Tags)
+						fc.curEnv = nil
+						o.Pos = fc.posOfFn()
+					}
+					continue
+				}
+			}
+			for k, cj := range conjuncts(body) {
+				var t string
+				if err := catchTr(fmt.Sprintf("%s ensures %d (definition, conjunct %d)", con.Key, i, k), func() { t = env.trBool(cj) }); err != nil {
+					panic(trErr(err.Error()))
+				}
+				fc.curEnv = env
+				o := fc.oblige("post", fmt.Sprintf("%s#%d", clauseLabel(c, i), k), exit, t, "postcondition (by definition, conjunct "+fmt.Sprint(k)+"): "+c.Src, c.Tags)
+				fc.curEnv = nil
+				o.Pos = fc.posOfFn()
+			}
+			continue
+		}
 		var t string
 		if err := catchTr(fmt.Sprintf("%s ensures %d", con.Key, i), func() { t = env.trBool(c.E) }); err != nil {
 			panic(trErr(err.Error()))
